@@ -1,5 +1,6 @@
 import ScrutModel.Lemmas.Exec
 import ScrutModel.Lemmas.TestRunProps
+import ScrutModel.Lemmas.TestRunScript
 /-!
 # C05 — A test passes only if it completed with the expected exit code and accepted output
 
@@ -114,35 +115,70 @@ theorem C05_document_success_complete {bytes : Bytes} {runs : List Ran} {outcome
   testDocumentBytes_ok_complete h hd hs ht hr hc hacc
 
 /-- **C05, single-script executor** (`runScript`: Cram documents, `--cram-compat`), no false
-success through the divider protocol, for a script that runs to its end (no command leaves the
-shell with `exit N`) under `keep_crlf: true` (the Cram default: `render_output` of the whole stream
-is the identity): a test reported `success` ended with the expected exit code, and the bytes its OWN
-command wrote (`scriptSelected`: its stderr under `output_stream: stderr`, else its stdout, under
-`combined` its stdout followed by its stderr) are accepted by its expectations.  NOT proved without
-the two guards (the statement is not known to be false there; the correspondence streams cover it). -/
+success through the divider protocol, for ALL documents and runs (no guard: the former hypotheses
+"no command leaves the shell", "compiled `keep_crlf` is `true`", "at most 2^64 test cases" are
+gone): a test reported `success` ended with the expected exit code, and `render_output` of the bytes
+its OWN command wrote (`scriptRendered`: `replace_crlf`, unless the compiled `keep_crlf` is `true`, of
+`scriptSelected`: its stderr under `output_stream: stderr`, else its stdout, under `combined` its
+stdout followed by its stderr) is accepted by its expectations.  Moreover NO command of the document
+left the shell (`exit N`: the stream ends there, fewer dividers than test cases are found, the run
+is an execution error unless a skip code was seen) and the document is not skipped.
+
+Why `replace_crlf` of the WHOLE stream is `replace_crlf` of every test's own bytes: the divider line
+is glued to the payload, carries no CR and starts with `~`, so a CR at the end of an unterminated
+payload pairs with nothing (`Lemmas/TestRunScript.lean`: `spec_scriptStream`), and replacing CR LF
+creates no divider start (`infix_of_infix_spec`).  More than 2^64 test cases: the index of a divider
+is parsed as `usize`, the executor fails (`iterLines_chunk_big`). -/
 theorem C05_script_no_false_success {tests : List Test} {runs : List SRan}
     {outcomes : List Outcome} {status i : Nat} (h : runScript tests runs = .report outcomes status)
-    (hleave : ∀ r ∈ runs.take tests.length, r.leaves = false)
-    (hkeep : ∀ cfg, compileTestcase tests = some cfg → cfg.keepCrlf = some true)
-    (hlen : tests.length ≤ 2 ^ 64) (hi : (i, Verdict.ok) ∈ outcomes) :
+    (hi : (i, Verdict.ok) ∈ outcomes) :
     ∃ (t : Test) (r : SRan) (cfg : Compiled), tests[i]? = some t ∧ runs[i]? = some r ∧
       compileTestcase tests = some cfg ∧ r.ran.code = t.expected.getD 0 ∧
-      accepts t.exps (scriptSelected cfg t r) = some true :=
-  runScript_ok_sound h hleave hkeep hlen hi
+      accepts t.exps (scriptRendered cfg t r) = some true ∧
+      (∀ r ∈ runs.take tests.length, r.leaves = false) ∧ scriptSkips tests runs = false :=
+  runScript_ok_sound_full h hi
+
+/-- reading aid: `scriptRendered` is the model's `render_output` with the COMPILED `keep_crlf`
+(`strip_ansi_escaping` is not carried into the compiled configuration) on the test's own bytes:
+the bytes themselves under `keep_crlf: true` (the Cram default), else every byte in order except
+each CR that is immediately followed by LF -/
+theorem C05_script_rendered (cfg : Compiled) (t : Test) (r : SRan) :
+    Scrut.Crlf.renderOutput cfg.keepCrlf none (fun b => some b) (scriptSelected cfg t r) =
+      some (scriptRendered cfg t r) ∧
+    (cfg.keepCrlf = some true → scriptRendered cfg t r = scriptSelected cfg t r) ∧
+    (cfg.keepCrlf ≠ some true →
+      scriptRendered cfg t r = Scrut.Crlf.replaceCrlfSpec (scriptSelected cfg t r)) :=
+  ⟨scriptRendered_spec cfg t r, scriptRendered_keep cfg t r, scriptRendered_replace cfg t r⟩
+
+/-- reading aid: the compiled `keep_crlf` is the one every test case that sets `keep_crlf` sets -/
+theorem C05_script_compiled_keep_crlf {tests : List Test} {cfg : Compiled}
+    (h : compileTestcase tests = some cfg) :
+    ∀ t ∈ tests, t.cfg.keepCrlf = none ∨ t.cfg.keepCrlf = cfg.keepCrlf :=
+  compiled_keepCrlf h
 
 /-- … from the bytes of a Cram document (`CramDocTests`: read, parsed with indentation 2, prepared) -/
 theorem C05_cram_document_no_false_success {bytes : Bytes} {runs : List SRan}
     {outcomes : List Outcome} {status i : Nat}
     (h : testCramDocumentBytes bytes runs = .report outcomes status)
     (hi : (i, Verdict.ok) ∈ outcomes) :
-    ∃ tests, CramDocTests bytes tests ∧
-      ((∀ r ∈ runs.take tests.length, r.leaves = false) →
-       (∀ cfg, compileTestcase tests = some cfg → cfg.keepCrlf = some true) →
-       tests.length ≤ 2 ^ 64 →
-       ∃ (t : Test) (r : SRan) (cfg : Compiled), tests[i]? = some t ∧ runs[i]? = some r ∧
-         compileTestcase tests = some cfg ∧ r.ran.code = t.expected.getD 0 ∧
-         accepts t.exps (scriptSelected cfg t r) = some true) :=
-  testCramDocumentBytes_ok_sound h hi
+    ∃ (tests : List Test) (t : Test) (r : SRan) (cfg : Compiled), CramDocTests bytes tests ∧
+      tests[i]? = some t ∧ runs[i]? = some r ∧
+      compileTestcase tests = some cfg ∧ r.ran.code = t.expected.getD 0 ∧
+      accepts t.exps (scriptRendered cfg t r) = some true ∧
+      (∀ r ∈ runs.take tests.length, r.leaves = false) ∧ scriptSkips tests runs = false :=
+  testCramDocumentBytes_ok_sound_full h hi
+
+/-- … from the bytes of a Markdown document read under `--cram-compat` (`CompatDocTests`) -/
+theorem C05_compat_document_no_false_success {bytes : Bytes} {runs : List SRan}
+    {outcomes : List Outcome} {status i : Nat}
+    (h : testDocumentCompatBytes bytes runs = .report outcomes status)
+    (hi : (i, Verdict.ok) ∈ outcomes) :
+    ∃ (tests : List Test) (t : Test) (r : SRan) (cfg : Compiled), CompatDocTests bytes tests ∧
+      tests[i]? = some t ∧ runs[i]? = some r ∧
+      compileTestcase tests = some cfg ∧ r.ran.code = t.expected.getD 0 ∧
+      accepts t.exps (scriptRendered cfg t r) = some true ∧
+      (∀ r ∈ runs.take tests.length, r.leaves = false) ∧ scriptSkips tests runs = false :=
+  testDocumentCompatBytes_ok_sound_full h hi
 
 /-! Non-vacuity, evaluated by the kernel from the bytes of a document with two test cases (the
 second: `{output_stream: stderr}`, glob + optional expectation, `[3]`): both `success` (the second
@@ -153,13 +189,25 @@ example : testDocumentBytes exBytes exRunsBad = .report [(0, .ok), (1, .malforme
 example : DocTests exBytes exTests := ex_docTests
 example : skips exTests exRuns = false := by decide
 /-- a Cram document with two test cases (`exCramBytes`), its prepared tests, a report with a
-`success`, and the guards of `C05_script_no_false_success` -/
+`success`; the same document when the second command leaves the shell: an execution error -/
 example : testCramDocumentBytes exCramBytes exCramRuns = .report [(0, .ok), (1, .invalidExit 0 1)] 50 :=
   ex_cram_report
 example : CramDocTests exCramBytes exCramTests := ex_cramDocTests
-example : (∀ r ∈ exCramRuns.take exCramTests.length, r.leaves = false) ∧
-    (∀ cfg, compileTestcase exCramTests = some cfg → cfg.keepCrlf = some true) ∧
-    exCramTests.length ≤ 2 ^ 64 := ex_cram_guards
+example : testCramDocumentBytes exCramBytes exCramRunsLeave = .execError := ex_cram_leave
+/-- a Markdown document under `--cram-compat` with `keep_crlf: false`: the command writes `a\r\n`,
+the expectation `a` accepts `scriptRendered` = `a\n`; a CR at the end of an unterminated payload
+(`a\r`, then the divider text) stays -/
+example : testDocumentCompatBytes exCrlfBytes [⟨⟨[97, 13, 10], [], 0⟩, false⟩] = .report [(0, .ok)] 0 :=
+  ex_crlf_report
+example : testDocumentCompatBytes exCrlfBytes [⟨⟨[97, 13], [], 0⟩, false⟩] = .report [(0, .malformed)] 50 :=
+  ex_crlf_report_cr
+example : CompatDocTests exCrlfBytes exCrlfTests := ex_crlf_docTests
+example : compileTestcase exCrlfTests = some ⟨some false, some .combined, some 80⟩ ∧
+    scriptRendered ⟨some false, some .combined, some 80⟩
+      ⟨{ outputStream := some .combined, keepCrlf := some false, skipCode := some 80 }, [⟨.equal [97], false, false⟩], none⟩
+      ⟨⟨[97, 13, 10], [], 0⟩, false⟩ = [97, 10] := ex_crlf_rendered
+example : Scrut.Crlf.replaceCrlfSpec (Scrut.Divider.chunk modelSalt 0 [97, 13] 0) =
+    Scrut.Divider.chunk modelSalt 0 [97, 13] 0 := ex_chunk_cr
 
 end Integrated
 
